@@ -776,6 +776,12 @@ def _include_file(context, uri, calling_uri, **kwargs):
     the current output."""
 
     template = _lookup_template(context, uri, calling_uri)
+    illegal_names = template.reserved_names.intersection(kwargs)
+    if illegal_names:
+        raise exceptions.NameConflictError(
+            "Reserved words passed to render(): %s"
+            % ", ".join(sorted(illegal_names))
+        )
     callable_, ctx = _populate_self_namespace(
         context._clean_inheritance_tokens(), template
     )
